@@ -450,11 +450,16 @@ func (w *world) end(dead bool) {
 	w.b.up.CloseAll()
 }
 
+// maxStuck bounds the time a broken pool can cost: every operation that does not complete
+// waits opDeadline; after a few of them the shard stops (the trace recorded so far decides).
+const maxStuck = 3
+
 func runHist(b *binding, casesPath string, tr *vh.Trace, shard, shards int) {
 	n := 0
+	nStuck := 0
 	err := vh.ReadCases(casesPath, func(raw json.RawMessage) error {
 		n++
-		if (n-1)%shards != shard {
+		if (n-1)%shards != shard || nStuck >= maxStuck {
 			return nil
 		}
 		var c hcase
@@ -477,6 +482,9 @@ func runHist(b *binding, casesPath string, tr *vh.Trace, shard, shards int) {
 				w.obs(e)
 			}
 			tr.Emit(e)
+			if e["res"] == "stuck" {
+				nStuck++
+			}
 			if dead {
 				break
 			}
@@ -572,7 +580,7 @@ func runStress(b *binding, tr *vh.Trace, rounds, workers int, seed int64) {
 			go func(sd int64) {
 				defer wg.Done()
 				lr := rand.New(rand.NewSource(sd))
-				for k := 0; k < 25; k++ {
+				for k := 0; k < 25 && atomic.LoadInt64(&nStuck) < 2; k++ {
 					ctx := newCtx()
 					rc := &receiver{done: make(chan struct{})}
 					_, sender, reason := w.pool.NewStream(ctx, rc)
@@ -635,6 +643,9 @@ func runStress(b *binding, tr *vh.Trace, rounds, workers int, seed int64) {
 		w.obs(e)
 		tr.Emit(e)
 		w.end(nStuck > 0)
+		if nStuck > 0 {
+			return // requests that never end cost opDeadline each: one audited round is enough
+		}
 	}
 }
 
